@@ -584,7 +584,7 @@ def run(chk, tier, scale=1.0):
     for i in range(4 if tier == "quick" else 40):
         rng = random.Random("c17s/%d/%d" % (chk.seed, i))
         jobs.append(dict(build=b, seed=rng.randrange(1 << 30), nreloads=34, nprobes=10, npre=rng.choice([0, 2]), directed="rename-storm" if i % 2 == 0 else "rule-storm"))
-    ndir = int((64 if tier == "quick" else 1600) * scale)
+    ndir = int((5 * len(DIRECTED) if tier == "quick" else 70 * len(DIRECTED)) * scale)
     for i in range(ndir):
         rng = random.Random("c17d/%d/%d" % (chk.seed, i))
         jobs.append(dict(build=b, seed=rng.randrange(1 << 30), nreloads=2, nprobes=14, npre=rng.choice([0, 2, 4]), directed=DIRECTED[i % len(DIRECTED)], variant=i // len(DIRECTED)))
